@@ -79,6 +79,11 @@ def cases(shard, nshards, seed, tier):
             for cfg, beh in cells():
                 if mine():
                     yield {"family": "from-3d", "file": fn, "ops": [], "gaps": gaps, "config": cfg, "behaviour": beh}
+    # what the command-line tool prints on stdout is the notation and nothing else, whatever the logging level
+    # (the real CBC child process runs for knotted inputs; fresh interpreter, real file descriptors)
+    for fn in ("tests/1ehz-assembly-1.cif", "tests/1E7K_1_C.cif"):
+        if mine():
+            yield {"family": "cli-stdout-under-loglevel", "file": fn}
     for fam, n, pairs in structs:
         for cfg, beh in cells():
             for entry in ENTRIES:
@@ -166,6 +171,8 @@ def run_case(case, rec):
         with _Inject(case["config"], case["behaviour"]):
             c01._from_3d(case, rec, clause="from3d.lossless-under-fault")
         return
+    if case["family"] == "cli-stdout-under-loglevel":
+        return _cli_loglevel(case, rec)
     n, pairs = case["n"], [tuple(p) for p in case["pairs"]]
     cfg, beh, entry = case["config"], case["behaviour"], case["entry"]
     b = mon2d.make_bpseq(n, pairs)
@@ -211,6 +218,39 @@ def run_case(case, rec):
         val = sum((1 if l == 0 else -l) for l in dec.values())
         rec.check("ok.optimal", val == best, lambda: det({"objective": val, "optimum": best, "structure": st}))
         rec.check("ok.solver-was-called", inj.calls == 1, lambda: det({"solver-calls": inj.calls}))
+
+
+def _cli_loglevel(case, rec):
+    import os
+    import subprocess
+    import sys
+    import tempfile
+
+    path = os.path.join(core.REPO, case["file"])
+    outs = {}
+    rec.mark_nontrivial(True)
+    for level in (None, "INFO", "DEBUG"):
+        env = dict(os.environ, VERIF_REPO=core.REPO, PYTHONHASHSEED="0")
+        env.pop("LOGLEVEL", None)
+        if level:
+            env["LOGLEVEL"] = level
+        cwd = tempfile.mkdtemp(prefix="vmon-c13-")
+        try:
+            p = subprocess.run([sys.executable, "-m", "vmon.launch", "annotator", path], cwd=cwd, env=env, capture_output=True, text=True, timeout=600)
+        finally:
+            import shutil
+
+            shutil.rmtree(cwd, ignore_errors=True)
+        outs[level or "unset"] = (p.returncode, p.stdout)
+    det = lambda extra=None: {"file": case["file"], "info": extra}
+    base = outs["unset"][1]
+    lines = [l for l in base.split("\n") if l and not l.startswith(">")]
+    st = "".join(lines[1::2])
+    dec, why = o2d.decode(st)
+    rec.check("cli.stdout-is-a-balanced-notation", outs["unset"][0] == 0 and dec is not None and len("".join(lines[0::2])) == len(st), lambda: det({"why": why, "stdout": base[:300]}))
+    bad = {k: v[1][:400] for k, v in outs.items() if v[1] != base or v[0] != 0}
+    rec.check("cli.stdout-same-under-every-loglevel", not bad, lambda: det({"differs-for": sorted(bad), "first-lines": {k: v.splitlines()[:4] for k, v in bad.items()}}))
+    rec.count("cli-loglevel-runs", 3)
 
 
 def _text(f, lev):
